@@ -28,7 +28,7 @@ class ExecCall(ExecExpr):
                 and f.value.func.id == "super":
             yield from self.super_call(node, st)
             return
-        if isinstance(f, ast.Name) and self.spec_mode and f.id in ("forall", "exists", "forall_int", "exists_int", "old", "let", "implies", "forall_obj"):
+        if isinstance(f, ast.Name) and self.spec_mode and f.id in ("forall", "exists", "forall_int", "exists_int", "old", "let", "implies", "forall_obj", "forall_str"):
             yield from self.spec_special(f.id, node, st)
             return
         if isinstance(f, ast.Name) and f.id in ("any", "all") and len(node.args) == 1 and \
@@ -508,6 +508,20 @@ class ExecCall(ExecExpr):
             if extra:
                 st.assume(z3.ForAll([r], z3.Implies(rng, z3.And(extra))))
             yield st, V("bool", z3.ForAll([r], z3.Implies(rng, body)))
+            return
+        if name == "forall_str":
+            # forall_str(lambda k: body): every string value
+            lam = node.args[0]
+            r = z3.Const(w.fresh_name("k"), w.sort_of("str"))
+            s = st.fork()
+            base = len(s.pc)
+            s.env = dict(st.env)
+            s.env[lam.args.args[0].arg] = V("str", r)
+            body = self.truth(self.eval1(lam.body, s))
+            extra = s.pc[base:]
+            if extra:
+                st.assume(z3.ForAll([r], z3.And(extra)))
+            yield st, V("bool", z3.ForAll([r], body))
             return
         if name == "let":
             # let(value, lambda x: body)
